@@ -109,6 +109,10 @@ def check_multiclient_cfg(cfg: Optional[MultiClientPortCfg],
         raise MultiClientCfgError(f'Release event name "{cfg.release_event_name}" not found')
     found_release_event = matched_release_events[0]
 
+    # clients call the release event: it must be an in-event
+    if found_release_event.direction != EventDirection.IN:
+        raise MultiClientCfgError(f'Release event "{cfg.release_event_name}" is not an in-event')
+
     return MultiClientPortCfgFixture(claim_event=found_claim_event,
                                      claim_granting_reply=enum_instance.fqn + enum_value,
                                      release_event=found_release_event)
